@@ -12,6 +12,8 @@ import dataclasses
 
 from hypothesis import strategies as st
 
+from .uni import chance, irange, pick
+
 TYPES = ("int", "double", "object", "str", "list")
 PYX_T = {"int": "cython.int", "double": "cython.double", "object": "object", "str": "str", "list": "list"}
 PY_T = {"int": "int", "double": "float", "object": "object", "str": "str", "list": "list"}
@@ -36,16 +38,16 @@ HEADER_PY = "import dataclasses\n\n"
 
 def _p(draw, prob):
     """Uniform Bernoulli draw (st.floats is NOT uniform)."""
-    return draw(st.sampled_from(range(1000))) < int(prob * 1000)
+    return chance(draw, prob)
 
 
 @st.composite
 def dc_class(draw, allow_invalid=True):
-    nf = draw(st.integers(1, 5))
+    nf = irange(draw, 1, 5)
     opts = {}
     # decorator options: each flipped with some probability
     for o, p in (("order", 0.35), ("frozen", 0.3), ("unsafe_hash", 0.2), ("eq", 0.12), ("repr", 0.08),
-                 ("kw_only", 0.12), ("match_args", 0.1), ("init", 0.05)):
+                 ("kw_only", 0.08), ("match_args", 0.08), ("init", 0.02)):
         if _p(draw, p):
             opts[o] = not DEC_DEFAULT[o]
     if opts.get("order") and opts.get("eq") is False and not (allow_invalid and _p(draw, 0.25)):
@@ -53,11 +55,11 @@ def dc_class(draw, allow_invalid=True):
     fields = []
     seen_default = False
     kw_from = None
-    if _p(draw, 0.05):
-        kw_from = draw(st.integers(0, nf))
-    kwfield = draw(st.integers(0, nf - 1)) if _p(draw, 0.06) else None
+    if _p(draw, 0.02):
+        kw_from = irange(draw, 0, nf)
+    kwfield = irange(draw, 0, nf - 1) if _p(draw, 0.02) else None
     for i in range(nf):
-        t = draw(st.sampled_from(TYPES))
+        t = pick(draw, TYPES)
         f = {"name": "abcde"[i], "type": t, "default": None, "factory": None, "via": "plain"}
         kw = bool(opts.get("kw_only")) or (kw_from is not None and i >= kw_from)
         if i == kwfield:
@@ -72,11 +74,11 @@ def dc_class(draw, allow_invalid=True):
                 if allow_invalid and _p(draw, 0.07):
                     f["default"] = "[]"           # mutable default: stdlib raises ValueError
                 else:
-                    f["factory"] = draw(st.sampled_from(FACTORIES[t]))
+                    f["factory"] = pick(draw, FACTORIES[t])
             elif _p(draw, 0.3):
-                f["factory"] = draw(st.sampled_from(FACTORIES[t]))
+                f["factory"] = pick(draw, FACTORIES[t])
             else:
-                f["default"] = draw(st.sampled_from(DEFAULTS[t]))
+                f["default"] = pick(draw, DEFAULTS[t])
             if f["factory"] is not None:
                 f["via"] = "field"
             elif _p(draw, 0.4):
@@ -88,7 +90,7 @@ def dc_class(draw, allow_invalid=True):
                 f[o] = False
                 f["via"] = "field"
         if _p(draw, 0.12):
-            f["hash"] = draw(st.booleans())
+            f["hash"] = chance(draw, 0.5)
             f["via"] = "field"
         if (f["default"] is not None or f["factory"] is not None) and _p(draw, 0.15):
             f["init"] = False
@@ -284,10 +286,10 @@ def _fields_expr(n):
 
 @st.composite
 def value_sets(draw, c):
-    A = {f["name"]: draw(st.sampled_from(VALUES[f["type"]])) for f in c["fields"]}
+    A = {f["name"]: pick(draw, VALUES[f["type"]]) for f in c["fields"]}
     B = dict(A)
     # B differs from A in at least one field (when possible), biased to late fields (ordering tie-breaks)
-    k = draw(st.integers(0, len(c["fields"]) - 1))
+    k = irange(draw, 0, len(c["fields"]) - 1)
     for f in c["fields"][k:]:
-        B[f["name"]] = draw(st.sampled_from(VALUES[f["type"]]))
+        B[f["name"]] = pick(draw, VALUES[f["type"]])
     return [A, B]
